@@ -270,3 +270,60 @@ Qed.
 (* The two readers, for every byte string: what the translated source text computes is what the model computes. *)
 Theorem readers_agree : ok_readers = true /\ streams_big_unsigned = true /\ (forall d, header_agrees d) /\ (forall d, entry_agrees d).
 Proof. split; [reflexivity|]. split; [reflexivity|]. split; [exact header_prog_correct|exact entry_prog_correct]. Qed.
+
+(* ---------- TraceEntry.get_args: up to MAX_ARGS words while four bytes remain ---------- *)
+Fixpoint vals (m : list (name * Z)) (k : name) : list Z :=
+  match m with
+  | [] => []
+  | (k', x) :: t => if text_eqb k' k then x :: vals t k else vals t k
+  end.
+Definition args_key : name := L "args" ++ [46; 48]%N.
+Definition args_of (s : sst) : list N := rev (map Z.to_N (vals (s_ints s) args_key)).
+
+Definition push_word (ints : list (name * Z)) (w : N) : list (name * Z) := (args_key, Z.of_N w) :: ints.
+
+Lemma run_append_int lst w s z : ev w s = Some z -> (0 < z)%Z -> StreamProg.has (Z.to_nat z) (s_rest s) = true ->
+  run (TAppendInt lst w) s = RFall (mkS (skipn (Z.to_nat z) (s_rest s)) (s_idx s + z)
+                                        ((lst ++ [46; 48]%N, Z.of_N (be_val (firstn (Z.to_nat z) (s_rest s)) 0)) :: s_ints s) (s_mems s)).
+Proof. intros H Hz Hh. cbn [run]. rewrite H. apply Z.ltb_lt in Hz. rewrite Hz, Hh. reflexivity. Qed.
+
+Lemma args_loop n : forall d i ints mems,
+  exists d' i',
+  iter_body (run (TIf (CNoRange (XC 4)) TBreak (TAppendInt (L "args") (XC 4)))) n (mkS d i ints mems) =
+  RFall (mkS d' i' (fold_left push_word (get_words n d) ints) mems).
+Proof.
+  induction n as [|n IH]; intros d i ints mems.
+  - exists d, i. reflexivity.
+  - cbn [iter_body get_words]. rewrite has_same.
+    erewrite run_if with (b := negb (StreamProg.has 4 d)) by (apply evc_norange with (z := 4%Z); reflexivity).
+    destruct (StreamProg.has 4 d) eqn:H4; cbn [negb].
+    + erewrite run_append_int with (z := 4%Z); [|reflexivity|reflexivity|exact H4].
+      change (Z.to_nat 4) with 4%nat. cbn [s_rest s_idx s_ints s_mems]. unfold int_at. change (skipn 0 d) with d.
+      destruct (IH (skipn 4 d) (i + 4)%Z ((L "args" ++ [46; 48]%N, Z.of_N (be_val (firstn 4 d) 0)) :: ints) mems) as [d' [i' E]].
+      exists d', i'. rewrite E. reflexivity.
+    + exists d, i. reflexivity.
+Qed.
+
+Lemma vals_push ws : forall ints, vals (fold_left push_word ws ints) args_key = rev (map Z.of_N ws) ++ vals ints args_key.
+Proof.
+  induction ws as [|w ws IH]; intros ints; [reflexivity|].
+  cbn [fold_left map rev]. rewrite IH. unfold push_word at 1. cbn [vals].
+  change (text_eqb args_key args_key) with true. cbv beta iota. rewrite <- app_assoc. reflexivity.
+Qed.
+
+Lemma run_repeat e body s z : ev e s = Some z -> run (TRepeat e body) s = iter_body (run body) (Z.to_nat z) s.
+Proof. intros H. cbn [run]. rewrite H. reflexivity. Qed.
+
+Theorem args_prog_correct : forall data,
+  match run prog_trace_args (init data) with
+  | RFall s => args_of s = get_words MAX_ARGS data
+  | _ => False
+  end.
+Proof.
+  intro data. unfold prog_trace_args, init. erewrite run_repeat with (z := 5%Z) by reflexivity.
+  change (Z.to_nat 5) with 5%nat. change MAX_ARGS with 5%nat.
+  destruct (args_loop 5 data 0%Z [] []) as [d' [i' E]].
+  change (L "args") with [97; 114; 103; 115]%N in E. rewrite E.
+  unfold args_of. cbn [s_ints]. rewrite vals_push. cbn [vals]. rewrite app_nil_r, map_rev, rev_involutive, map_map.
+  erewrite map_ext; [apply map_id|]. intros w. apply N2Z.id.
+Qed.
